@@ -121,6 +121,25 @@ pub fn judge(ev: &mut Evaluator, defs: &UnitDefs, c: &Case) -> Result<String, St
             }
         }
     }
+    // the displayed text, read back as input, is a quantity in exactly the requested unit with the
+    // displayed magnitude (catches a unit that is *rendered* differently from what it is)
+    if c.k.is_none() && x.is_finite() {
+        // digit separators only (unit names contain underscores, too)
+        let cs: Vec<char> = shown.chars().collect();
+        let text: String = (0..cs.len()).filter(|&i| !(cs[i] == '_' && i > 0 && i + 1 < cs.len() && cs[i - 1].is_ascii_digit() && cs[i + 1].is_ascii_digit())).map(|i| cs[i]).collect();
+        match ev.raw(&format!("({text})")) {
+            Some(back) => {
+                let (bx, bf) = quantity_parts(&back).ok_or("displayed text does not read back as a quantity")?;
+                if bf != u_factors {
+                    return Err(format!("displayed as `{shown}`, which reads back with unit [{}] instead of the requested [{}]", factors_string(&bf), factors_string(&u_factors)));
+                }
+                if !(close(bx, x, 1e-4) || (x == 0.0 && bx == 0.0)) {
+                    return Err(format!("displayed as `{shown}`, which reads back as {bx:e} {u_text}, the value is {x:e}"));
+                }
+            }
+            None => return Err(format!("displayed as `{shown}`, which is not accepted as input")),
+        }
+    }
     // (iii) converting back restores the magnitude
     if c.via.is_none() && c.k.is_none() {
         let (q_mag, q_factors) = quantity_parts(&q_raw).unwrap();
@@ -212,6 +231,10 @@ pub fn check(rep: &mut Report) {
         let mut terms = atoms.clone();
         for (a, da) in &atoms {
             terms.push((format!("{a}^2"), dim_pow(da, 2, 1)));
+            // square- and cube-root style units
+            terms.push((format!("{a}^(1/2)"), dim_pow(da, 1, 2)));
+            terms.push((format!("{a}^(1/3)"), dim_pow(da, 1, 3)));
+            terms.push((format!("{a}^(-1/2)"), dim_pow(da, -1, 2)));
             for (b, db) in &atoms {
                 terms.push((format!("({a} * {b})"), dim_mul(da, db)));
                 terms.push((format!("({a} / {b})"), dim_mul(da, &dim_inv(db))));
@@ -309,7 +332,7 @@ pub fn check(rep: &mut Report) {
     rep.set("simple_and_chained_cases", json!(n_simple));
     rep.set("compound_cases", json!(n - n_simple));
     rep.set("compound_unit_terms", json!(unit_terms.len()));
-    rep.rule = "every ordered pair of same-dimension units x magnitudes; targets with a magnitude; chained conversions (through a target with a magnitude, through every/two intermediate units); every ordered pair of same-dimension compound unit terms (a, a^2, a*b, a/b, a/b^2 over the collision alphabet, capped per dimension group by an even spread); checked: exact unit (factor list), same quantity in base units (reference), display form, round trip; non-trivial = chained / multiple / compound cases".into();
+    rep.rule = "every ordered pair of same-dimension units x magnitudes; targets with a magnitude; chained conversions (through a target with a magnitude, through every/two intermediate units); every ordered pair of same-dimension compound unit terms (a, a^2, a^(1/2), a^(1/3), a^(-1/2), a*b, a/b, a/b^2 over the collision alphabet, capped per dimension group by an even spread); checked: exact unit (factor list), same quantity in base units (reference), display form, round trip; non-trivial = chained / multiple / compound cases".into();
     rep.assumptions = vec![
         "reference = UnitDefs; tolerance 1e-9 relative; display coefficients compared at 6 significant digits".into(),
         "compound groups larger than the cap are covered by an evenly spread subset (stated in compound_cases)".into(),
